@@ -27,13 +27,13 @@ LEVEL_NOTE = ("Trusted: Coq kernel, extraction, the renderer structure->source t
               "is an input (C07's subject): the harness feeds CPython's and checks Griffe's Class.mro() equals it. Default *values* and annotation "
               "text are not compared (the property asks for names, order, kinds, required-ness). Class bodies bind each name at most once (plus the "
               "annotated-name-then-property form); undecorated classes contain no field() calls; field(default=..., default_factory=...) together "
-              "is not generated. Expression resolution of `dataclass`/`field`/`KW_ONLY`/`InitVar` spellings is exercised, not modelled.")
+              "is not generated. Expression resolution of `dataclass`/`field`/`KW_ONLY`/`InitVar` spellings, module layout, wildcard expansion order and extension state across loads are exercised by the generator (layout and history streams), not modelled in Coq; finding C18-F10 (star import re-binding `dataclass`) lives there and is classified by a layout predicate in the harness, not by the model.")
 MODEL = ("Model.C18_dataclass", "run_C18")
 COQ_TARGETS = ["Proofs/C18_dataclass.vo"]
 RULE = ("systematic: every (parent decorator, child decorator) pair over {undecorated} + {init in (absent,True,False)} x {kw_only in (absent,True,False)} "
         "x fixed body pairs; every single field form (5 annotation kinds x value none/plain/each field(...) argument combination) under each kw-only "
         "context; seeded random diamonds A;B(A);C(A);D(B,C)|D(C,B) over three names; seeded random hierarchies of 1-4 classes (thorough: up to 5), depth <=3-4, 0-2 bases, bodies of 0-5 statements over a pool of 6 "
-        "names so that overrides collide, optional hand-written __init__, one- or two-module package layout (25%), `from __future__ import annotations` (9%), decorator/field/KW_ONLY/InitVar spelled bare or through `dataclasses.`. CPython-rejected modules are counted and compared with the model's rejection. non-trivial = at least one decorated class with "
+        "names so that overrides collide, optional hand-written __init__, one-module or importable two-module package layout (35%; bases reach the derived module by from-import, same-package star import with/without __all__, or re-export through __init__), history stream: 2-3 versions of one package (same package and class names) loaded through ONE shared griffe.load_extensions() container, each version compared with CPython; `from __future__ import annotations` (9%), decorator/field/KW_ONLY/InitVar spelled bare or through `dataclasses.`. CPython-rejected modules are counted and compared with the model's rejection. non-trivial = at least one decorated class with "
         "at least one annotated statement; distinct by rendered source")
 TRUSTED = ["renderer: harness turns the generated class table into source text; the same table is the model input (abstraction = generator structure)"]
 ASSUMPTIONS = ["Class.mro() equals CPython's __mro__ on the generated hierarchies (checked on every case; C07's property)",
@@ -172,22 +172,30 @@ def render_split(table, where, pkg, imp="from"):
     """where[i] in ('ma','mz'): Griffe sees a package with two modules whose classes inherit across the module boundary.
     imp: how a base class defined in the other module reaches the module that uses it:
       from      explicit `from pkg.other import K0` / `from .other import K0`
-      wild      `from pkg.other import *` (same-package wildcard import)
-      wild_all  the same, and the defining module lists its classes in __all__
+      wild      `from pkg.other import *` (same-package wildcard import) placed before the stdlib imports
+      wild_all  the star import after the stdlib imports, the defining module lists its classes in __all__
+      wild_shadow  the star import after the stdlib imports, no __all__: the star re-binds dataclass/field/... (finding C18-F10)
       reexport  `from pkg import K0`, the package __init__ re-exporting with wildcard imports of both modules
       reexport_from  the same with explicit from-imports in __init__
     Returns ({module: source} including "__init__", {class index: line of the hand-written def __init__})."""
     out = {}
     hw_line = {}
     init_lines = []
-    for m in ("ma", "mz"):
+    for m in (("ma", "mz") if not where or where[0] == "ma" else ("mz", "ma")):
         lines = header(table)
         need = sorted({b for i, c in enumerate(table) if where[i] == m for b in c["bases"] if where[b] != m})
         other = "mz" if m == "ma" else "ma"
         mine = [i for i in range(len(table)) if where[i] == m]
-        if imp in ("wild", "wild_all"):
+        if imp in ("wild", "wild_all", "wild_shadow"):
             if need:
-                lines.append(f"from {pkg}.{other} import *" if len(need) % 2 else f"from .{other} import *")
+                star = f"from {pkg}.{other} import *" if len(need) % 2 else f"from .{other} import *"
+                if imp == "wild":
+                    # before the stdlib imports: the later `from dataclasses import dataclass, ...` re-binds the helper names
+                    lines.insert(1 if lines[0].startswith("from __future__") else 0, star)
+                else:
+                    # isort order (stdlib first).  Without __all__ in the other module ("wild_shadow") the star import re-binds
+                    # `dataclass`, `field`, ... to aliases of the sibling's imports: finding C18-F10
+                    lines.append(star)
         elif imp in ("reexport", "reexport_from"):
             for b in need:
                 lines.append(f"from {pkg} import K{b}")
@@ -542,22 +550,58 @@ def norm_member(mem):
     return mem[:2] if mem[0] == "synth" else mem[:1]
 
 
-def check_tables(ctx, tables, stream, use_model=True, mirror=False):
+IMPORT_STYLES = ["from", "from", "wild", "wild", "wild_all", "wild_all", "reexport", "reexport_from", "wild_shadow"]
+
+
+def rand_split(rng, table):
+    """two-module package layout that real Python could import: classes below a cut live in the base module, the rest in the
+    derived module, which imports from the base module only (no circular imports).  The cut is placed so that at least one base
+    crosses the module boundary when the table has a base at all; which module is walked first (ma/mz) is random."""
+    n = len(table)
+    edges = [(i, b) for i, c in enumerate(table) for b in c["bases"]]
+    if edges:
+        i, b = rng.choice(edges)
+        cut = rng.randint(b + 1, i)
+    else:
+        cut = rng.randint(1, max(1, n - 1))
+    base_mod, derived_mod = rng.choice([("ma", "mz"), ("mz", "ma")])
+    return {"where": [base_mod if i < cut else derived_mod for i in range(n)], "imp": rng.choice(IMPORT_STYLES)}
+
+
+def shadowed(table, split):
+    """C18-F10 classifier (layout level, outside the Coq model): classes defined in a module whose star import of a sibling
+    (placed after the stdlib imports, sibling without __all__) re-binds `dataclass`, `field`, `KW_ONLY`, `InitVar`, `dataclasses`."""
+    where, imp = split_parts(split)
+    if where is None or imp != "wild_shadow":
+        return set()
+    mods = {m for i, c in enumerate(table) for m in [where[i]] if any(where[b] != m for b in c["bases"])}
+    return {i for i in range(len(table)) if where[i] in mods}
+
+
+def check_tables(ctx, tables, stream, use_model=True, mirror=False, loads=None):
+    """loads (optional, parallel to tables): {"name", "dir", "extensions", "split", "prev"} — the table is one version of a
+    package loaded through a shared Extensions container after the versions listed in "prev" (history stream)."""
     prepared = []
-    for table in tables:
+    for ti, table in enumerate(tables):
+        load = loads[ti] if loads else None
         mros = cpython_mros(table)
         if mros is None:
             ctx.observe("outcome", "mro-conflict (CPython rejects the bases)")
             ctx.case({"skeleton": skeleton(table)}, False)
             continue
         split = None
-        if len(table) >= 2 and ctx.rng.random() < 0.25:
-            split = [ctx.rng.choice(["ma", "mz"]) for _ in table]
-        prepared.append((table, mros, split))
-    mres = ctx.model([enc_table(t, m) for t, m, _ in prepared]) if use_model else [None] * len(prepared)
-    for (table, mros, split), mr in zip(prepared, mres):
+        if load is not None:
+            split = load.get("split")
+        elif len(table) >= 2 and ctx.rng.random() < 0.35:
+            split = rand_split(ctx.rng, table)
+        prepared.append((table, mros, split, load))
+    mres = ctx.model([enc_table(t, m) for t, m, _, _ in prepared]) if use_model else [None] * len(prepared)
+    for (table, mros, split, load), mr in zip(prepared, mres):
         src, hw_line = render(table)
         case = case_json(table, split)
+        if load is not None:
+            case["history"] = {"package": load["name"], "version": len(load["prev"]), "earlier_versions_loaded_through_the_same_extensions": list(load["prev"])}
+            ctx.observe("history position", len(load["prev"]))
         nontrivial = any(c["dec"] is not None and any(s[0] == "annprop" or (s[0] == "attr" and s[2] != "none") for s in c["body"]) for c in table)
         ctx.case(case, nontrivial)
         ctx.observe("stream", stream)
@@ -565,7 +609,7 @@ def check_tables(ctx, tables, stream, use_model=True, mirror=False):
         ctx.observe("depth", table_depth(table))
         if use_model:
             ctx.observe("single inheritance (model's linear)", bool(mr[1]))
-        ctx.observe("layout", "two-modules" if split else "one-module")
+        ctx.observe("layout", "one-module" if not split else "two-modules, bases via " + split_parts(split)[1])
         ctx.observe("annotations", "from __future__ import annotations" if table[0].get("style", 0) % 11 == 4 else "evaluated")
         for c in table:
             ctx.observe("decorator", "undecorated" if c["dec"] is None else f"init={c['dec'][0]},kw_only={c['dec'][1]}")
@@ -580,7 +624,9 @@ def check_tables(ctx, tables, stream, use_model=True, mirror=False):
                 else:
                     ctx.observe("form", s[0] + ("/property" if s[0] == "def" and s[2] else ""))
         try:
-            gv = griffe_view(ctx, table, hw_line, split)
+            gv = griffe_view(ctx, table, hw_line, split, load)
+            if load is not None:
+                load["prev"].append({"table": case["table"], "split": split})
         except Exception as e:  # noqa: BLE001
             ctx.tie_failure("harness", "griffe.load raised on a generated hierarchy", f"{type(e).__name__}: {e}", case)
             ctx.property_failure(case, {"griffe.load raised": f"{type(e).__name__}: {e}"})
@@ -594,6 +640,7 @@ def check_tables(ctx, tables, stream, use_model=True, mirror=False):
             if bool(accepted) != (cv is not None):
                 ctx.tie_failure("oracle", "py_eval_table(model) accepts vs CPython executes the module",
                                 {"model_accepts": accepted, "cpython": why or "ok"}, case)
+        f10 = shadowed(table, split)
         for i, c in enumerate(table):
             g_mem, g_label, g_mro = gv[i]
             if g_mro != mros[i]:
@@ -609,9 +656,9 @@ def check_tables(ctx, tables, stream, use_model=True, mirror=False):
             gaps = None
             if use_model:
                 m_g, m_py, m_glabel, m_pylabel, m_gaps, m_g10 = per[i]
-                if m_g != norm_member(g_mem):
+                if m_g != norm_member(g_mem) and i not in f10:
                     ctx.tie_failure("correspondence", "g_init_member(model) vs members['__init__'] after griffe.load", {"class": i, "model": m_g, "impl": g_mem}, case)
-                if bool(m_glabel) != g_label:
+                if bool(m_glabel) != g_label and i not in f10:
                     ctx.tie_failure("correspondence", "g_label(model) vs 'dataclass' in labels", {"class": i, "model": m_glabel, "impl": g_label}, case)
                 if cv is not None:
                     if m_py != norm_member(cv[i][0]):
@@ -632,7 +679,7 @@ def check_tables(ctx, tables, stream, use_model=True, mirror=False):
                     fid = None
                     if gaps is not None:
                         hit = [FINDINGS[k] for k, g in enumerate(gaps) if g]
-                        fid = hit[0] if hit else None
+                        fid = hit[0] if hit else ("C18-F10" if i in f10 else None)
                         for h in hit:
                             ctx.observe("gap of a differing class", h)
                     ctx.observe("outcome", "init differs: " + (fid or "UNEXPLAINED"))
@@ -644,7 +691,7 @@ def check_tables(ctx, tables, stream, use_model=True, mirror=False):
                         ctx.observe("gap-free equal: kw-only params", sum(1 for p in c_mem[1] if p[1] == "KO"))
             if g_label != c_isdc:
                 ctx.observe("outcome", "label differs")
-                ctx.property_failure(case, {"class": i, "griffe label": g_label, "is_dataclass": c_isdc}, finding="C18-F9" if (gaps is not None and g10) else None)
+                ctx.property_failure(case, {"class": i, "griffe label": g_label, "is_dataclass": c_isdc}, finding=("C18-F9" if g10 else "C18-F10" if i in f10 else None) if gaps is not None else None)
             elif c_isdc and c["dec"] is None:
                 ctx.observe("outcome", "inherited label present")
 
@@ -726,7 +773,15 @@ WITNESSES = {
 }
 
 
+F10_WITNESS = ([K(D0, [A(0, v=("plain",))]), K(D0, [A(1, v=("plain",))], [0])], {"where": ["ma", "mz"], "imp": "wild_shadow"}, 1)
+
+
 def replay_witnesses(ctx):
+    table, split, i = F10_WITNESS
+    src, hw_line = render(table)
+    gv = griffe_view(ctx, table, hw_line, split)
+    cv, _ = cpython_view(src, len(table))
+    ctx.witness("C18-F10", cv is not None and i in shadowed(table, split) and norm_member(gv[i][0]) != norm_member(cv[i][0]))
     for fid, (table, i) in WITNESSES.items():
         mros = cpython_mros(table)
         src, hw_line = render(table)
@@ -745,8 +800,42 @@ def replay_witnesses(ctx):
                 ctx.tie_failure("harness", f"witness of {fid} is not inside its own gap predicate", {"model": per}, case_json(table, None))
 
 
+def check_histories(ctx, n, use_model=True, mirror=False):
+    """Several versions of ONE package (same package and class names, different bodies) loaded one after the other through one
+    shared griffe.load_extensions() result — what `griffe check` and any long-lived loader do.  Each version is compared with
+    CPython's execution of its own source."""
+    import griffe
+    tables, loads = [], []
+    for _ in range(n):
+        ext = griffe.load_extensions()
+        name = f"c18h{next(_counter)}"
+        prev = []
+        nver = ctx.rng.choice([2, 2, 3])
+        first = rand_table(ctx.rng, maxn=3, quiet=True)
+        for v in range(nver):
+            t = first if v == 0 else (evolve(ctx.rng, first) if ctx.rng.random() < 0.6 else rand_table(ctx.rng, maxn=3, quiet=True))
+            split = rand_split(ctx.rng, t) if (len(t) >= 2 and ctx.rng.random() < 0.3) else None
+            tables.append(t)
+            loads.append({"name": name, "dir": f"hist/{name}/v{v}", "extensions": ext, "split": split, "prev": prev})
+    check_tables(ctx, tables, "history: versions of one package through shared extensions", use_model=use_model, mirror=mirror, loads=loads)
+
+
+def evolve(rng, table):
+    """next version of the same package: same classes and bases, fields added / removed / given defaults."""
+    out = []
+    for i, c in enumerate(table):
+        body = [s for s in c["body"] if rng.random() < 0.8]
+        used = {s[1] for s in body}
+        free = [n for n in range(NAMES) if n not in used]
+        if free and rng.random() < 0.7:
+            body.append(("attr", rng.choice(free), "plain", ("plain",)))
+        out.append({"dec": c["dec"], "body": body, "hw": c["hw"], "bases": list(c["bases"]), "style": c["style"] + 1})
+    return out
+
+
 def explore(ctx):
     replay_witnesses(ctx)
+    check_histories(ctx, ctx.budget(120, 1200))
     sd = systematic_decorators()
     sf = systematic_forms()
     if ctx.quick:
@@ -779,6 +868,9 @@ def explore(ctx):
 def search(ctx):
     """Implementation vs CPython only, gap predicates from the python mirror (used when the model or a proof is unavailable)."""
     for k in range(20):
+        check_histories(ctx, 20, use_model=False, mirror=True)
+        if ctx.prop_failures:
+            return
         check_tables(ctx, [rand_table(ctx.rng, maxn=4, quiet=(j % 2 == 0)) for j in range(200)], "search", use_model=False, mirror=True)
         if ctx.prop_failures or ctx.elapsed() > 500:
             return
@@ -789,12 +881,27 @@ def replay(ctx, data):
     if "table" not in case:
         print("replay names no input:", data.get("no_longer_checks"))
         return 0
-    table = [{"dec": None if c["dec"] is None else tuple(c["dec"]), "body": [detuple(s) for s in c["body"]], "hw": c["hw"], "bases": c["bases"],
-              "style": c.get("style", 0)} for c in case["table"]]
+    def untable(tj):
+        return [{"dec": None if c["dec"] is None else tuple(c["dec"]), "body": [detuple(s) for s in c["body"]], "hw": c["hw"], "bases": c["bases"],
+                 "style": c.get("style", 0)} for c in tj]
+    table = untable(case["table"])
     ctx.scratch.mkdir(parents=True, exist_ok=True)
     src, hw_line = render(table)
     print(src)
-    gv = griffe_view(ctx, table, hw_line, case.get("split"))
+    load = None
+    hist = case.get("history")
+    if hist:
+        import griffe
+        ext = griffe.load_extensions()
+        earlier = hist["earlier_versions_loaded_through_the_same_extensions"]
+        print(f"# version {hist['version']} of package {hist['package']}; {len(earlier)} earlier version(s) loaded first through the same extensions object")
+        for v, e in enumerate(earlier):
+            t0 = untable(e["table"])
+            griffe_view(ctx, t0, render(t0)[1], e.get("split"), {"name": hist["package"], "dir": f"replay/v{v}", "extensions": ext})
+        load = {"name": hist["package"], "dir": "replay/current", "extensions": ext}
+    if case.get("split"):
+        print("# layout:", case["split"])
+    gv = griffe_view(ctx, table, hw_line, case.get("split"), load)
     cv, why = cpython_view(src, len(table))
     for i in range(len(table)):
         print(f"K{i}: griffe {gv[i][:2]}  cpython {cv[i] if cv else why}")
